@@ -42,6 +42,11 @@ func init() {
 			{dir: "sniproxy", name: "isRejectedDomain", cfg: transCfg{externs: map[string]extern{
 				"net.ParseIP": {name: "net_ParseIP_notnil", args: []string{"string"}, res: []string{tNonnil}},
 			}}},
+			// C14: the length of the second Peek of HelloInfo: the statements up to `recLen := ...`
+			{dir: "sniproxy", recv: "TLSHelloConn", name: "HelloInfo", cfg: transCfg{
+				coqName: "gen_sniproxy_HelloInfo_recLen", checked: true,
+				sliceVar: "recLen", sliceEarly: true, results: []string{"int"},
+				params: []pspec{{src: "c.br.Peek(headerLen)", name: "hdr_err", typ: "([]byte,error)"}}}},
 		})
 	})
 	register("CodeCred", func(repo string) (string, error) {
